@@ -886,3 +886,55 @@ def dim_units(ck, F, rule="DIM-UNITS"):
             ck.ob(rule, k, not bad, "%s combines a %s quantity with a %s quantity (%s): width/height of a spill extent are mixed up with rows/columns"
                   % (qn, bad[0][0] if bad else "", bad[0][1] if bad else "", rv["op"]), f, l, sample={"fn": qn, "left": sorted(ta), "right": sorted(tb)})
     ck.note("dimension_checked_operations", n)
+
+
+def date_total(ck, F, rule="DATE-TOTAL"):
+    """date_to_serial_number is defined on every calendar date of the supported range (1899-12-31 .. 9999-12-31, the
+    images of serials 1 .. 2958465 under from_excel_date): each error it constructs is either the `None` arm of
+    NaiveDate::from_ymd_opt (not a calendar date) or is only reachable for years that the zone analysis bounds outside
+    1899..=9999."""
+    from effects import Program
+    import zones
+    from mir import op_place, place_proj
+    b = ck.need(F.one, "formatter::dates::date_to_serial_number")
+    P = Program(F)
+    A = zones.Analysis(b, P, F)
+    names = {b.local_name(i): i for i in range(1, b.nargs + 1)}
+    ck.ob(rule, "date_to_serial_number|params", "year" in names, "parameter `year` not found", b.file, b.line)
+    if "year" not in names:
+        return
+    yt = "_%d" % names["year"]
+    # None arms of from_ymd_opt
+    none_regions = set()
+    for bi, t in b.calls():
+        if (b.callee_q(t) or "").endswith("from_ymd_opt") and not place_proj(t["dest"]):
+            d = t["dest"]["l"]
+            for sb, blk in enumerate(b.blocks):
+                tt = blk["t"]
+                if tt["k"] == "switch" and any(s["rv"]["k"] == "discr" and s["rv"]["p"]["l"] == d and not place_proj(s["rv"]["p"]) for s in blk["s"]):
+                    somes = {tg for v, tg in tt["targets"] if v == "1"}
+                    for tg in [tt.get("otherwise")] + [tg for v, tg in tt["targets"] if v == "0"]:
+                        if tg is not None and tg not in somes:
+                            none_regions |= {x for x in b.reachable_from(tg, avoid=somes)}
+    ck.ob(rule, "date_to_serial_number|calendar-check", bool(none_regions), "no NaiveDate::from_ymd_opt None arm found (anchor lost?)", b.file, b.line)
+    k = 0
+    for bi, si, s in b.stmts():
+        rv = s["rv"]
+        if not (rv["k"] == "agg" and rv.get("adt") == "std::result::Result" and rv.get("variant") == "Err"):
+            continue
+        k += 1
+        f, l = b.loc(bi, si)
+        if bi in none_regions:
+            ck.ob(rule, "date_to_serial_number|Err#%d is the not-a-date arm" % k, True)
+            continue
+        outs = A.states_at(bi) or []
+        ok = bool(outs)
+        for key, z in outs:
+            if z.bottom:
+                continue
+            if not (z.entails(yt, zones.ZERO, 1898) or z.entails(zones.ZERO, yt, -10000)):
+                ok = False
+        ck.ob(rule, "date_to_serial_number|Err#%d only outside 1899..=9999" % k, ok,
+              "date_to_serial_number rejects calendar dates whose year may lie in 1899..=9999: serial numbers that from_excel_date maps "
+              "to such a date (e.g. serial 1 = 1899-12-31) no longer convert back", f, l)
+    ck.ob(rule, "date_to_serial_number|errors", k >= 1, "no error construction found (anchor lost?)", b.file, b.line)
